@@ -88,7 +88,10 @@ func c01Keys(kind drv.Kind) (names []string, keys map[string]string) {
 		"hash": "ha#sh", "amp-eq": "amp&eq=", "utf8": "ü/日本", "dot-inside": "a.b/c..d", "trailing-space": "x ",
 	}
 	if kind.IsFs() {
+		// fs key domain: segments of at most 255 bytes; total length up to the 1024-byte key limit
 		keys["long200"] = strings.Repeat("k", 200)
+		keys["long255"] = strings.Repeat("k", 255)
+		keys["long1024-segments"] = strings.Repeat(strings.Repeat("s", 199)+"/", 5) + strings.Repeat("t", 24)
 	} else {
 		keys["long1024"] = strings.Repeat("k", 1024)
 		keys["long1024-segments"] = strings.Repeat(strings.Repeat("s", 199)+"/", 5) + strings.Repeat("t", 24)
@@ -103,7 +106,7 @@ func c01Keys(kind drv.Kind) (names []string, keys map[string]string) {
 func runC01(c *engine.Ctx) {
 	c.Rule = "case = one upload (path: PUT, browser-form POST, copy to another key, copy onto itself, Go Backend.PutObject with map or nil metadata) from three complete factor products: (size x byte pattern) x path x backend x integrity mode; key x path x backend; metadata subset (32) x {PUT, Backend API} x backend x start state; oracle computed by the checker: GET twice, HEAD, upload-response ETag, ListObjects entry, Backend.GetObject/HeadObject; distinct_nontrivial = distinct cases whose round trip was verified"
 	c.Assumptions = append(c.Assumptions, "three factor groups, each a complete product (not the full cross product)", "extra metadata keys on the response are tolerated (the statement only requires sent headers to come back)", "fs key domain: clean relative paths, segments <= 255 bytes, flattened key + 33 <= 255")
-	kinds := drv.MemFsKinds
+	kinds := drv.AllKinds // real-directory worlds also in the quick tier
 	sizes := []int{0, 1, 2, 3, 255, 256, 4095, 4096, 4097, 32767, 32768, 32769, 65537}
 	if !quick(c) {
 		kinds = drv.AllKinds
